@@ -193,7 +193,7 @@ def run(run):
         if not quick:
             env = dict(C.GOENV, GOFLAGS="-mod=mod")
             race = os.path.join(C.BUILD, "cpfh-race")
-            rc, out = C.sh(["go", "build", "-race", "-tags", "verif", "-o", race, "."], cwd=os.path.join(C.VERIF, "harness"), env=env, timeout=900)
+            rc, out = C.sh(["go", "build", "-race", "-tags", "verif", "-o", race, "."], cwd=C.HARNESS_DIR, env=env, timeout=900)
             if rc == 0:
                 root = C.scratch("c07race")
                 try:
